@@ -355,6 +355,9 @@ func (sp *Spec) inactivityPenaltyQuotient(fork int) uint64 {
 // SlashValidator with whistleblower = proposer.
 func (sp *Spec) SlashValidator(st *State, slashed uint64) error {
 	epoch := sp.CurrentEpoch(st)
+	if st.Validators[slashed].ExitEpoch <= epoch {
+		sp.observe("slashings_of_validators_that_already_exited")
+	}
 	sp.InitiateValidatorExit(st, slashed)
 	v := &st.Validators[slashed]
 	v.Slashed = true
